@@ -264,6 +264,9 @@ func c14Main(args []string) error {
 		limit := 40
 		if density == "all" {
 			limit = 1500
+			if len(data) > 6000 { // every probe repeats the whole history: larger files get a sample again
+				limit = 200
+			}
 		}
 		// sample keeps the first and last few candidates and a seeded sample of the rest
 		sample := func(cands []int) []int {
